@@ -45,7 +45,7 @@ class Cfg(dict):
 def default_cfg(**kw):
     c = Cfg(
         min_steps=1, max_steps=7, forms=list(SIMPLE_FORMS), async_forms=[], p_async=0.0,
-        p_ps2=0.4, p_want=0.45, p_tb=0.1, tb_kinds=['tb', 'tb', 'tbstack', 'tbbare'],
+        p_ps2=0.4, p_want=0.45, p_tb=0.1, tb_kinds=['tb', 'tb', 'tbstack', 'tbbare', 'tbdots'],
         seps=['none', 'none', 'none', 'blank', 'prose'], p_helper=0.15, p_tabs=0.1,
         layouts=['google', 'google', 'freeform'], max_doctests_per_doc=2,
         n_modules=(1, 2), n_funcs=(1, 3), p_class=0.5, p_moddoc=0.3, p_subpkg=0.3,
